@@ -148,7 +148,7 @@ def compare_values(a, b):
     if isinstance(a, Obj):
         if a.origin and b.origin:
             return 'equal' if a.origin == b.origin else 'different'
-        if a.cls is not b.cls:
+        if (a.cls.key if a.cls else None) != (b.cls.key if b.cls else None):
             return 'different'
         res = 'equal'
         for k in set(a.fields) | set(b.fields):
